@@ -359,4 +359,117 @@ theorem permParity_eq_sign (n : Nat) (π : Perm (Fin n)) :
   rw [h4, pow_add, pow_mul]
   simp
 
+/-! ### the symbol as the code builds it -/
+
+variable {d : Nat}
+
+theorem leviCivitaSym_of_length_ne (m : List (Fin d)) (h : m.length ≠ d) :
+    leviCivitaSym d m = 0 := by
+  simp [leviCivitaSym, h]
+
+theorem leviCivitaSym_of_dup (m : List (Fin d)) (h : ¬ m.Nodup) : leviCivitaSym d m = 0 := by
+  have hd : hasDup (m.map (·.val)) = true := by
+    rw [hasDup_iff]; exact fun hn => h (List.Nodup.of_map _ hn)
+  simp [leviCivitaSym, permParity, hd]
+
+/-- on the index list of a permutation the symbol is its sign -/
+theorem leviCivitaSym_perm (π : Perm (Fin d)) :
+    leviCivitaSym d ((List.finRange d).map π) = ((Perm.sign π : ℤˣ) : ℤ) := by
+  unfold leviCivitaSym
+  rw [if_pos (by simp), List.map_map]
+  exact permParity_eq_sign d π
+
+/-- the permutation `i ↦ m[i]` of a duplicate-free index list of full length -/
+noncomputable def permOfList (m : List (Fin d)) (hl : m.length = d) (hn : m.Nodup) :
+    Perm (Fin d) :=
+  Equiv.ofBijective (fun i => m[i.val]'(by rw [hl]; exact i.isLt))
+    (Finite.injective_iff_bijective.mp (fun _ _ hab => Fin.ext ((hn.getElem_inj_iff).mp hab)))
+
+theorem permOfList_apply (m : List (Fin d)) (hl : m.length = d) (hn : m.Nodup) (i : Fin d) :
+    permOfList m hl hn i = m[i.val]'(by rw [hl]; exact i.isLt) := rfl
+
+theorem map_permOfList (m : List (Fin d)) (hl : m.length = d) (hn : m.Nodup) :
+    (List.finRange d).map (permOfList m hl hn) = m := by
+  apply List.ext_getElem
+  · simp [hl]
+  · intro i h1 h2
+    simp [permOfList_apply]
+
+/-- **the Levi-Civita symbol of the code is the usual one**: `0` on index lists of the wrong length
+or with a repeated entry, otherwise the sign of the permutation `i ↦ m[i]`. -/
+theorem leviCivitaSym_eq_sign (m : List (Fin d)) (hl : m.length = d) (hn : m.Nodup) :
+    leviCivitaSym d m = ((Perm.sign (permOfList m hl hn) : ℤˣ) : ℤ) := by
+  rw [← leviCivitaSym_perm, map_permOfList]
+
+theorem leviCivitaSym_eq (m : List (Fin d)) :
+    leviCivitaSym d m =
+      if h : m.length = d ∧ m.Nodup then ((Perm.sign (permOfList m h.1 h.2) : ℤˣ) : ℤ) else 0 := by
+  split
+  · next h => exact leviCivitaSym_eq_sign m h.1 h.2
+  · next h =>
+    by_cases hl : m.length = d
+    · exact leviCivitaSym_of_dup m (fun hn => h ⟨hl, hn⟩)
+    · exact leviCivitaSym_of_length_ne m hl
+
+/-! ### the sign identity, every dimension -/
+
+/-- the determinant (Laplace expansion of the model) of a signed permutation matrix is
+`sign σ · Π s` -/
+theorem det_mat_eq_sign (g : SP d) :
+    det g.mat = ((Perm.sign g.σ : ℤˣ) : ℤ) * ∏ a, g.s a := by
+  rw [GinjaxVerif.det_eq]
+  have : Matrix.of g.mat = Matrix.diagonal g.s * g.σ.permMatrix ℤ := by
+    ext i j
+    rw [Matrix.diagonal_mul]
+    simp only [Matrix.of_apply, SP.mat, Equiv.Perm.permMatrix, PEquiv.toMatrix_apply,
+      Equiv.toPEquiv_apply, Option.mem_def, Option.some.injEq]
+    by_cases h : j = g.σ i
+    · simp [h]
+    · have h' : ¬ g.σ i = j := fun hh => h hh.symm
+      simp [h, h']
+  rw [this, Matrix.det_mul, Matrix.det_diagonal, Matrix.det_permutation]
+  push_cast
+  ring
+
+theorem sgn_map_perm (g : SP d) (π : Perm (Fin d)) :
+    g.sgn ((List.finRange d).map π) = ∏ a, g.s a := by
+  unfold SP.sgn
+  rw [List.map_map, ← Fin.prod_univ_def]
+  exact Equiv.prod_comp π g.s
+
+theorem prod_s_mul_self (g : SP d) : (∏ a, g.s a) * (∏ a, g.s a) = 1 := by
+  rw [← Finset.prod_mul_distrib]
+  simp [g.s_mul_self]
+
+theorem sign_mul_self_int (π : Perm (Fin d)) :
+    ((Perm.sign π : ℤˣ) : ℤ) * ((Perm.sign π : ℤˣ) : ℤ) = 1 := by
+  rw [← Units.val_mul, Int.units_mul_self]; rfl
+
+/-- **the sign identity of the Levi-Civita symbol in every dimension**:
+`ε(m) = det g · Π s(m_i) · ε(σ m)` for every `g ∈ B_d` and every index list. -/
+theorem LCSign_general (g : SP d) : LCSign g := by
+  intro m
+  by_cases hl : m.length = d
+  · by_cases hn : m.Nodup
+    · rw [← map_permOfList m hl hn]
+      generalize permOfList m hl hn = π
+      have hcomp : ((List.finRange d).map π).map g.σ = (List.finRange d).map (g.σ * π) := by
+        rw [List.map_map]; rfl
+      rw [hcomp, leviCivitaSym_perm, leviCivitaSym_perm, det_mat_eq_sign, sgn_map_perm,
+        Perm.sign_mul, Units.val_mul]
+      have e : ((Perm.sign g.σ : ℤˣ) : ℤ) * (∏ a, g.s a) * (∏ a, g.s a) *
+            (((Perm.sign g.σ : ℤˣ) : ℤ) * ((Perm.sign π : ℤˣ) : ℤ))
+          = (((Perm.sign g.σ : ℤˣ) : ℤ) * ((Perm.sign g.σ : ℤˣ) : ℤ)) *
+            ((∏ a, g.s a) * (∏ a, g.s a)) * ((Perm.sign π : ℤˣ) : ℤ) := by ring
+      rw [e, sign_mul_self_int, prod_s_mul_self]; ring
+    · rw [leviCivitaSym_of_dup m hn,
+        leviCivitaSym_of_dup (m.map g.σ) (fun h => hn (List.Nodup.of_map _ h))]
+      simp
+  · rw [leviCivitaSym_of_length_ne m hl,
+      leviCivitaSym_of_length_ne (m.map g.σ) (by simpa using hl)]
+    simp
+
+/-- the general statement of `Lemmas/C05LC.lean`, proved -/
+theorem leviCivita_sign_general : leviCivita_sign_statement := fun _ g => LCSign_general g
+
 end GinjaxVerif.C05
